@@ -726,6 +726,7 @@ fn plan_base(prop: &str) -> Vec<Item> {
                     v.push(it("fd_two", &format!("pool=0,order={}", order), Some(3), 4));
                 }
             }
+            v.push(it("fd_two", "pool=1,order=0,swap=1", Some(2), 3));
             v.push(it("fs_nested", "pool=1,shape=1", Some(2), 3));
             v.extend(prog_sweep(&["FDa", "FDd", "FDs", "AF", "FDx", "FDk"], &[1], Some(1), 2, Some(1), 1));
             v.extend(prog_pairs(&["FDa", "FDd", "FDs", "AF", "FDx", "FDk"], "pool=1,busy=1", false, Some(1), 2, 2));
